@@ -116,12 +116,13 @@ def keyOf (wire : List Nat) (values : List RawValue) : List (Option (List UInt8)
 /-- **Key extraction in partition-key order.** Whatever the positions of the key's bind markers among the
 statement's markers (any injective `wire`, non-key markers interleaved), `PartitionKey::new` run on the table
 `deser_prepared_metadata` builds (sequence = frame position, sorted by marker index) returns, at position `seq`,
-the value bound to marker `wire[seq]`.
-(`wire.length ≤ 65536` follows from the other hypotheses by counting; it is kept as a hypothesis.) -/
+the value bound to marker `wire[seq]`. -/
 theorem extract_in_pk_order (wire : List Nat) (values : List RawValue)
-    (hnd : wire.Nodup) (hlt : ∀ ix ∈ wire, ix < values.length) (hv : values.length ≤ 65535)
-    (hk : wire.length ≤ 65536) :
+    (hnd : wire.Nodup) (hlt : ∀ ix ∈ wire, ix < values.length) (hv : values.length ≤ 65535) :
     extract (pkIndexesOfWire wire) values = .ok (keyOf wire values) := by
+  have hk : wire.length ≤ 65536 := by
+    have := nodup_bounded_length values.length wire hnd hlt
+    omega
   obtain ⟨hperm, hsorted, hseq⟩ := pkIndexesOfWire_props wire hk hnd
   have hlen : (pkIndexesOfWire wire).length = wire.length := by
     rw [hperm.length_eq, wirePairs_length]
@@ -167,10 +168,10 @@ theorem extract_in_pk_order (wire : List Nat) (values : List RawValue)
 /-- Component form of the above: `(extract pkIndexes values)[seq] = values[wire[seq]]`. -/
 theorem extract_component (wire : List Nat) (values : List RawValue)
     (hnd : wire.Nodup) (hlt : ∀ ix ∈ wire, ix < values.length) (hv : values.length ≤ 65535)
-    (hk : wire.length ≤ 65536) (seq : Nat) (hs : seq < wire.length) :
+    (seq : Nat) (hs : seq < wire.length) :
     ∃ pk, extract (pkIndexesOfWire wire) values = .ok pk ∧
       pk[seq]? = some (values.getD wire[seq] .null).asValue := by
-  refine ⟨_, extract_in_pk_order wire values hnd hlt hv hk, ?_⟩
+  refine ⟨_, extract_in_pk_order wire values hnd hlt hv, ?_⟩
   unfold keyOf
   rw [List.getElem?_map, List.getElem?_eq_getElem hs]
   rfl
@@ -181,7 +182,7 @@ example :
     extract (pkIndexesOfWire [4, 0, 3])
         [.value [67], .value [0, 42], .value [0, 0, 0, 23], .value [89], .value [1, 2, 3]] =
       .ok [some [1, 2, 3], some [67], some [89]] := by
-  rw [extract_in_pk_order [4, 0, 3] _ (by decide) (by decide) (by decide) (by decide)]
+  rw [extract_in_pk_order [4, 0, 3] _ (by decide) (by decide) (by decide)]
   decide
 
 /-- The error branch: a marker index at or beyond the number of bound values is reported, not skipped. -/
@@ -218,7 +219,7 @@ the serialized key: Murmur3 of the single component's bytes, or of `⨁ be16 len
 key — and the CDC token of the same bytes for a table using the CDC partitioner. -/
 theorem token_formula (cdc : Bool) (wire : List Nat) (values : List RawValue) (comps : List (List UInt8))
     (hne : wire ≠ []) (hnd : wire.Nodup) (hlt : ∀ ix ∈ wire, ix < values.length) (hv : values.length ≤ 65535)
-    (hk : wire.length ≤ 65536) (hbound : keyOf wire values = comps.map some)
+    (hbound : keyOf wire values = comps.map some)
     (hsmall : 2 ≤ comps.length → ∀ c ∈ comps, c.length ≤ 65535) :
     calculateToken cdc (pkIndexesOfWire wire) values =
       .ok (some (if cdc then cdcSpec (encodeKey comps) else murmur3Spec (encodeKey comps))) := by
@@ -234,7 +235,7 @@ theorem token_formula (cdc : Bool) (wire : List Nat) (values : List RawValue) (c
     exact hne (List.map_eq_nil_iff.mp hbound)
   obtain ⟨cs, hcs, hfl⟩ := encodeChunks_ok comps hcne hsmall
   unfold calculateToken
-  rw [hpk, extract_in_pk_order wire values hnd hlt hv hk, hbound]
+  rw [hpk, extract_in_pk_order wire values hnd hlt hv, hbound]
   simp only [Bool.false_eq_true, if_false, hcs]
   unfold hashChunks
   cases cdc with
@@ -244,7 +245,7 @@ theorem token_formula (cdc : Bool) (wire : List Nat) (values : List RawValue) (c
 /-- `compute_partition_key` returns exactly the serialized key the token is computed from. -/
 theorem computePartitionKey_formula (wire : List Nat) (values : List RawValue) (comps : List (List UInt8))
     (hne : wire ≠ []) (hnd : wire.Nodup) (hlt : ∀ ix ∈ wire, ix < values.length) (hv : values.length ≤ 65535)
-    (hk : wire.length ≤ 65536) (hbound : keyOf wire values = comps.map some)
+    (hbound : keyOf wire values = comps.map some)
     (hsmall : 2 ≤ comps.length → ∀ c ∈ comps, c.length ≤ 65535) :
     computePartitionKey (pkIndexesOfWire wire) values = .ok (encodeKey comps) := by
   have hcne : comps ≠ [] := by
@@ -254,7 +255,7 @@ theorem computePartitionKey_formula (wire : List Nat) (values : List RawValue) (
     exact hne (List.map_eq_nil_iff.mp hbound)
   obtain ⟨cs, hcs, hfl⟩ := encodeChunks_ok comps hcne hsmall
   unfold computePartitionKey
-  rw [extract_in_pk_order wire values hnd hlt hv hk, hbound]
+  rw [extract_in_pk_order wire values hnd hlt hv, hbound]
   simp only [hcs, hfl]
 
 /-- The single-component and composite shapes of `encodeKey`, spelled out. -/
@@ -268,7 +269,7 @@ theorem encodeKey_composite (v w : List UInt8) (rest : List (List UInt8)) :
 `ValueTooLong(len)` is returned (a *single* component may be of any length). -/
 theorem component_too_long (cdc : Bool) (wire : List Nat) (values : List RawValue) (comps : List (List UInt8))
     (hnd : wire.Nodup) (hlt : ∀ ix ∈ wire, ix < values.length) (hv : values.length ≤ 65535)
-    (hk : wire.length ≤ 65536) (hbound : keyOf wire values = comps.map some)
+    (hbound : keyOf wire values = comps.map some)
     (h2 : 2 ≤ comps.length) (hlong : ∃ c ∈ comps, 65536 ≤ c.length) :
     ∃ n, 65536 ≤ n ∧ calculateToken cdc (pkIndexesOfWire wire) values = .error (.valueTooLong n) ∧
       computePartitionKey (pkIndexesOfWire wire) values = .error (.valueTooLong n) := by
@@ -293,10 +294,10 @@ theorem component_too_long (cdc : Bool) (wire : List Nat) (values : List RawValu
   obtain ⟨n, hn, henc⟩ := henc
   refine ⟨n, hn, ?_, ?_⟩
   · unfold calculateToken
-    rw [hpk, extract_in_pk_order wire values hnd hlt hv hk, hbound]
+    rw [hpk, extract_in_pk_order wire values hnd hlt hv, hbound]
     simp only [Bool.false_eq_true, if_false, henc]
   · unfold computePartitionKey
-    rw [extract_in_pk_order wire values hnd hlt hv hk, hbound]
+    rw [extract_in_pk_order wire values hnd hlt hv, hbound]
     simp only [henc]
 
 -- non-vacuity: 3 markers, key = (marker 2, marker 0): the hypotheses of `token_formula` hold and the token is
@@ -305,20 +306,20 @@ example :
     calculateToken false (pkIndexesOfWire [2, 0]) [.value [0xa1, 0xa2], .null, .value [0xbb]] =
       .ok (some (murmur3Spec [0, 1, 0xbb, 0, 0, 2, 0xa1, 0xa2, 0])) := by
   rw [token_formula false [2, 0] _ [[0xbb], [0xa1, 0xa2]] (by decide) (by decide) (by decide) (by decide)
-    (by decide) (by decide) (by decide)]
+    (by decide) (by decide)]
   rfl
 
 example :
     calculateToken false (pkIndexesOfWire [1]) [.null, .value [0xa1, 0xa2]] = .ok (some (murmur3Spec [0xa1, 0xa2])) := by
   rw [token_formula false [1] _ [[0xa1, 0xa2]] (by decide) (by decide) (by decide) (by decide)
-    (by decide) (by decide) (by decide)]
+    (by decide) (by decide)]
   rfl
 
 -- non-vacuity of `component_too_long`: key = (marker 1, marker 0), marker 0 bound to any 65536 bytes
 example (big : List UInt8) (hb : big.length = 65536) : ∃ n, 65536 ≤ n ∧
     calculateToken false (pkIndexesOfWire [1, 0]) [.value big, .value [1]] = .error (.valueTooLong n) := by
   obtain ⟨n, h1, h2, _⟩ := component_too_long false [1, 0] [.value big, .value [1]]
-    [[1], big] (by decide) (by simp) (by simp) (by simp) rfl (by simp)
+    [[1], big] (by decide) (by simp) (by simp) rfl (by simp)
     ⟨big, List.mem_cons_of_mem _ List.mem_cons_self, by omega⟩
   exact ⟨n, h1, h2⟩
 
